@@ -27,11 +27,21 @@ impl Ctx {
             if let PublicParams::RSA(p) = k.public_params() {
                 use rsa::traits::PublicKeyParts;
                 let n = p.key.n().to_bytes_be(); let e = p.key.e().to_bytes_be();
-                self.out.case("fp3", &[hx(&n), hx(&e)], &[], &format!("{} {}", hx(&fp), hx(&kid)), None, cls);
+                // harness-side statement of RFC 9580 5.5.4.1
+                use digest::Digest;
+                let mut pre = n.clone(); pre.extend_from_slice(&e);
+                let want = md5::Md5::digest(&pre).to_vec();
+                self.out.case("fp3", &[hx(&n), hx(&e)], &[], &format!("{} {}", hx(&fp), hx(&kid)), Some(fp == want), cls);
             }
             return;
         }
-        self.out.case("fp", &[v.to_string(), hx(b)], &[], &format!("{} {}", hx(&fp), hx(&kid)), Some(same_ser), cls);
+        let want: Vec<u8> = {
+            use digest::Digest;
+            if v == 6 { let mut p = vec![0x9b]; p.extend((b.len() as u32).to_be_bytes()); p.extend_from_slice(b); sha2::Sha256::digest(&p).to_vec() }
+            else { let mut p = vec![0x99]; p.extend((b.len() as u16).to_be_bytes()); p.extend_from_slice(b); sha1::Sha1::digest(&p).to_vec() }
+        };
+        let kid_ok = if v == 6 { kid == want[..8] } else { kid == want[want.len() - 8..] };
+        self.out.case("fp", &[v.to_string(), hx(b)], &[], &format!("{} {}", hx(&fp), hx(&kid)), Some(same_ser && fp == want && kid_ok), cls);
     }
 
     fn cert(&mut self, pk: &SignedPublicKey, sk: Option<&SignedSecretKey>, cls: &str) {
